@@ -63,6 +63,20 @@ def handleTile (cmd : String) (args : List String) : Option String :=
   | "tile.addr", [lgw, h] => do let lgw ← nat? lgw; let h ← nat? h; pure (tileAddr lgw h)
   | "tile.acc", [lgw, h, seed] => do
       let lgw ← nat? lgw; let h ← nat? h; let seed ← nat? seed; pure (tileAcc lgw h seed)
+  | "tile.remap", [lgw, h, x, y, ops] => do
+      let lgw ← nat? lgw; let h ← nat? h; let x ← nat? x; let y ← nat? y
+      if x ≥ 2 ^ lgw ∨ y ≥ h then none
+      let mut cur := 0
+      let mut outs : List String := []
+      for tok in ops.splitOn "," do
+        match tok.front with
+        | 'k' => let k ← (tok.drop 1).toString.toNat?; if k > 2047 then none else cur := k
+        | 'q' | 'p' =>
+            -- every tile carries the same word `cur <<< 5`: whichever tile the coordinate addresses refers to mapping `cur`
+            let mi := Tile.mappingIndexOf (cur * 32)
+            outs := s!"{mi}:{u16 (3 * mi + 1)}:{u16 (5 * mi + 2)}" :: outs
+        | _ => none
+      pure (joinWith "," outs.reverse)
   | "tile.setcell", [w, v] => do
       let w ← nat? w; let v ← int? v
       let other := u32 (W32 - 1 - w)
